@@ -1014,6 +1014,7 @@ fn main() {
         Some("case") => cmd_case(&args[1..]),
         Some("tables") => cmd_tables(),
         Some("probe") => probe::cmd_probe(&args[1..]),
+        Some("seq") => probe::cmd_seq(&args[1..]),
         Some("mut") => mutsrc::cmd_mut(&args[1..]),
         Some("src") => mutsrc::cmd_src(&args[1..]),
         Some("hist") => front::cmd_hist(&args[1..]),
